@@ -1725,6 +1725,32 @@ class ReaderExtractor:
     def _stmt(self, s: ast.stmt, st) -> None:
         fi: FuncInfo = st["fi"]
         res: ReaderResult = st["res"]
+        if isinstance(s, (ast.Expr, ast.Assign, ast.Return, ast.AnnAssign)):
+            # `helper(R.read_sequence(...), ...)`: a sub-reader made in the argument list of another call is first given a name
+            # (`_sub = R.read_sequence(...)` then `helper(_sub, ...)`), which is the form the rest of the walk follows
+            hoists: List[ast.stmt] = []
+            if any(isinstance(a, ast.Call) and self._read_call(a, st) is not None and self._read_call(a, st)[1] in READ_CONS
+                   for x in ast.walk(s) if isinstance(x, ast.Call) and self._read_call(x, st) is None for a in list(x.args) + [k.value for k in x.keywords]):
+                s = copy.deepcopy(s)        # the shared tree is never edited
+            for c in [x for x in ast.walk(s) if isinstance(x, ast.Call)]:
+                if self._read_call(c, st) is not None:
+                    continue
+                for i, a in enumerate(list(c.args)):
+                    rc = self._read_call(a, st) if isinstance(a, ast.Call) else None
+                    if rc is not None and rc[1] in READ_CONS and rc[2] is a:
+                        nm = f"_sub{a.lineno}_{a.col_offset}"
+                        hoists.append(ast.copy_location(ast.Assign(targets=[ast.Name(id=nm, ctx=ast.Store())], value=a), s))
+                        c.args[i] = ast.copy_location(ast.Name(id=nm, ctx=ast.Load()), a)
+                for k in c.keywords:
+                    a = k.value
+                    rc = self._read_call(a, st) if isinstance(a, ast.Call) else None
+                    if rc is not None and rc[1] in READ_CONS and rc[2] is a:
+                        nm = f"_sub{a.lineno}_{a.col_offset}"
+                        hoists.append(ast.copy_location(ast.Assign(targets=[ast.Name(id=nm, ctx=ast.Store())], value=a), s))
+                        k.value = ast.copy_location(ast.Name(id=nm, ctx=ast.Load()), a)
+            for h in hoists:
+                ast.fix_missing_locations(h)
+                self._stmt(h, st)
         if isinstance(s, ast.With) and all(isinstance(it.optional_vars, ast.Name) and isinstance(it.context_expr, ast.Call) and self._read_call(it.context_expr, st) is not None
                                            for it in s.items):
             rd = self.m.classes.get(f"{ASN1}.ASN1Reader")
